@@ -1424,5 +1424,5 @@ func verifRecurses(code int) string {
 	return ""
 }
 
-// verifTagged: the failure description s belongs to the statement of property tag ("C09: ...").
-func verifTagged(s, tag string) bool { return strings.HasPrefix(s, tag) }
+// verifTagged: the failure description s names a failed statement of property tag ("C09: ...; C16: ...").
+func verifTagged(s, tag string) bool { return strings.Contains(s, tag+":") }
